@@ -387,7 +387,7 @@ def main(argv):
               file=sys.stderr)
         return 2
     meta = json.loads(lines[-1][4:])
-    nshards = a.shards or meta["shards"].get(tier) or int(os.environ.get("VERIF_SHARDS", "6"))
+    nshards = a.shards or meta["shards"].get(tier) or int(os.environ.get("VERIF_SHARDS", "16"))
     if a.budget:
         env["VERIF_BUDGET"] = str(a.budget)
     t0 = time.time()
